@@ -371,6 +371,12 @@ class Evaluator:
             else:
                 kws.append((k.arg, v))
         kws = tuple(kws)
+        # a library keyword given its documented default is not part of the term (np.ravel(x, order="C") is np.ravel(x))
+        if kws:
+            cname = f[1] if f[0] == "glob" else ("." + f[2] if f[0] == "attr" else None)
+            if cname is not None:
+                kws = tuple((k, v) for k, v in kws if not (k is not None and (cname, k) in contracts.LIB_DEFAULTS and is_const(v) and v[1] == contracts.LIB_DEFAULTS[(cname, k)]
+                                                           and type(v[1]) is type(contracts.LIB_DEFAULTS[(cname, k)])))
         q = f[1] if f[0] == "glob" else None
         # ---- interpreted builtins over literal sequences
         if q in ("builtins.reversed", "builtins.tuple", "builtins.list", "builtins.enumerate", "builtins.zip") and not kws:
